@@ -24,7 +24,10 @@ import plistlib
 
 from harness.core import vloop
 
-RULE = ("round 4: every documented HAP error code with/without the BackOff item at every TLV reply (thorough: all 14 for "
+RULE = ("round 5: error replies with HTTP status 400/401/403/404/405/470/500/503 at every HTTP reply incl. /pair-pin-start; "
+        "two handlers alive in one process and one event loop (mrp+mrp, companion+companion, airplay-hap+raop-hap, "
+        "mrp+companion; thorough: four more pairs), one honest and one faulty (or both honest), interleaved by start "
+        "delays and per-connection latencies (5 profiles), each judged on its own; round 4: every documented HAP error code with/without the BackOff item at every TLV reply (thorough: all 14 for "
         "NN; otherwise the back-off reply and one seed-chosen other); wrong-type containers naming the expected "
         "keys (plist roots, OPACK pairing data / root, TLV as text body); configuration sweep (DMAP pairing guid and "
         "remote name shapes x right code / wrong code / missing field; presented name for the other handlers, "
@@ -1682,7 +1685,7 @@ def concurrent_sweep(ctx, lines, pending):
         for fault in chosen:
             profiles = PROFILES if (ctx.thorough and (fault is None or fault in must)) else rng.sample(PROFILES, 2)
             for delays, lats in profiles:
-                for honest_first in ((True, False) if fault is not None and ctx.thorough else (rng.chance(0.5),)):
+                for honest_first in ((True, False) if (fault in must and ctx.thorough) else (rng.chance(0.5),)):
                     specs = [(na, pa, None), (nb, pb, fault)]
                     if not honest_first:
                         specs.reverse()
